@@ -7,6 +7,9 @@ CLAIMED = {
  "C01": ("§7 C01", "Bounded exhaustive exploration of the real Writer->Reader path: every case of a product alphabet (boundary scalars x annotation sets x contexts, all ordered pairs of token classes, all small container shapes, boundary payload lengths, symbol-count boundaries) in each of the three writer modes, with <=d deviations in Writer entry point, compared in the Ion data model. No case inside the alphabet breaks the round trip except the listed known finding.",
          "Trusts refmodel equality and the drive adapters; values outside the alphabet, deeper nesting and longer sequences are not covered.",
          "stateless choice-tree enumeration (deviation-bounded) of value sequences on the real Writer and Reader vs an independent data-model oracle"),
+ "C02": ("§7 C02", "Bounded exhaustive exploration of the real text Reader over every rendering an independent spec-derived printer can produce with <=d spelling deviations per document (trivia incl. comments/VT/FF at every gap, radix/underscore, exponent forms, string forms and every escape style, symbol forms, field-name forms, lob forms, trailing commas); each full traversal compared with the printed model.",
+         "Trusts reftext (printer; its parser re-reads every rendering in selfcheck) and refmodel. Renderings with more than d simultaneous deviations are not covered.",
+         "deviation-bounded enumeration of spelling choices (stateless choice-tree explorer) replayed on the real Reader"),
  "C03": ("§7 C03", "Bounded exhaustive exploration of the real binary Reader over every encoding an independent spec-derived encoder can produce with <=d deviations from canonical form, for every document of the corpus; each full traversal compared value-by-value with the encoded model.",
          "Trusts refbin (encoder) and refmodel; the encoder's own round trip through the independent strict decoder is re-checked by `run.sh selfcheck`. Encodings with more than d simultaneous deviations are not covered.",
          "deviation-bounded enumeration of representation choices (stateless choice-tree explorer) replayed on the real Reader"),
